@@ -4,7 +4,7 @@
  * is defined here with its libc contract:
  *   fread/fwrite (size 1 items; short count at end of file / when the array is full), fgetc (EOF at end), fgets (line or
  *   n-1 bytes, NUL-terminated, NULL at end), feof, fseek (SET/CUR, may go past the end), fileno, fscanf("%zu"/"%lu": skip
- *   white space, read decimal digits, 0 items if none), snprintf (literals, %zu/%lu/%u/%d decimal, %s; exact).
+ *   white space, read decimal digits, 0 items if none), snprintf (literals and %zu/%lu decimal; exact).
  * In the real build (VERIF_NATIVE_REAL) the same definitions interpose the libc symbols; calls on any other FILE* (the native
  * driver reading its replay file) are forwarded to the *_unlocked libc twins. */
 #ifndef C06_H
@@ -106,16 +106,13 @@ uint32_t STUB(fseek)(uint8_t* f, uint64_t off, uint32_t whence) {
   fpos_ = (uint64_t)np; feof_ = 0;
   return 0;
 }
-/* fscanf: conversions %zu %lu (both unsigned long on LP64). glibc renames fscanf to __isoc99_fscanf at compile time. */
-uint32_t STUB(__isoc99_fscanf)(uint8_t* f, uint8_t* fmt, ...) {
-  va_list va;
-  va_start(va, fmt);
-#ifdef VERIF_NATIVE_REAL
-  if (f != hfile_) { int r = vfscanf(f, (const char*)fmt, va); va_end(va); return (uint32_t)r; }
-#endif
+/* fscanf / snprintf.  CBMC does not propagate constants through va_arg, which would turn the parsed width (hence the malloc
+ * size) and the printed header into unknowns.  Every call in Image.cc has a fixed shape - fscanf(f, "%zu"|"%lu", &v) and
+ * snprintf(buf, cap, fmt, a, b, c) with three unsigned long arguments - so for the generated C the stubs are defined with
+ * exactly those parameters (same registers as the variadic call on x86-64); the real build keeps the variadic prototypes and
+ * forwards foreign streams/other shapes to libc.  glibc renames fscanf to __isoc99_fscanf at compile time. */
+static uint32_t fscanf_core(uint8_t* fmt, uint64_t* out) {
   ASSERT(fmt[0] == '%' && ((fmt[1] == 'z' && fmt[2] == 'u') || (fmt[1] == 'l' && fmt[2] == 'u')) && fmt[3] == 0, "UNMODELLED fscanf format");
-  uint64_t* out = va_arg(va, uint64_t*);
-  va_end(va);
   while (IN_FILE(fpos_) && (file_[fpos_] == ' ' || (file_[fpos_] >= 9 && file_[fpos_] <= 13))) fpos_++;
   if (!IN_FILE(fpos_)) { feof_ = 1; return (uint32_t)-1; }
   uint64_t v = 0; uint32_t nd = 0;
@@ -124,30 +121,54 @@ uint32_t STUB(__isoc99_fscanf)(uint8_t* f, uint8_t* fmt, ...) {
   *out = v;
   return 1;
 }
-/* snprintf: literals, %%, %s, %zu %lu %u %d (non-negative decimals are all phosg's image headers print) */
-uint32_t STUB(snprintf)(uint8_t* buf, uint64_t cap, uint8_t* fmt, ...) {
-  va_list va;
-  va_start(va, fmt);
-  uint64_t n = 0;
-#define PUT(c) do { if (n + 1 < cap) buf[n] = (uint8_t)(c); n++; } while (0)
+/* literals, %%, and up to three %zu / %lu conversions taken from a[0..2] */
+static uint32_t snprintf_core(uint8_t* buf, uint64_t cap, uint8_t* fmt, const uint64_t* a) {
+  uint64_t n = 0; uint32_t ai = 0;
   for (uint32_t i = 0; fmt[i]; i++) {
-    if (fmt[i] != '%') { PUT(fmt[i]); continue; }
+    if (fmt[i] != '%') { if (n + 1 < cap) buf[n] = fmt[i]; n++; continue; }
     i++;
-    if (fmt[i] == '%') { PUT('%'); continue; }
-    int lng = 0;
-    if (fmt[i] == 'z' || fmt[i] == 'l') { lng = 1; i++; }
-    if (fmt[i] == 's') { const uint8_t* s = va_arg(va, const uint8_t*); for (uint32_t k = 0; s[k]; k++) PUT(s[k]); continue; }
-    ASSERT(fmt[i] == 'u' || fmt[i] == 'd', "UNMODELLED snprintf conversion");
-    uint64_t v = lng ? va_arg(va, uint64_t) : (uint64_t)va_arg(va, unsigned int);
+    if (fmt[i] == '%') { if (n + 1 < cap) buf[n] = '%'; n++; continue; }
+    ASSERT((fmt[i] == 'z' || fmt[i] == 'l') && fmt[i + 1] == 'u' && ai < 3, "UNMODELLED snprintf conversion");
+    i++;
+    uint64_t v = a[ai++];
     uint8_t dig[20]; uint32_t nd = 0;
-    do { dig[nd++] = (uint8_t)('0' + v % 10); v /= 10; } while (v != 0);
-    while (nd > 0) PUT(dig[--nd]);
+    dig[nd++] = (uint8_t)('0' + v % 10); v /= 10;
+    while (v != 0) { dig[nd++] = (uint8_t)('0' + v % 10); v /= 10; }
+    while (nd > 0) { nd--; if (n + 1 < cap) buf[n] = dig[nd]; n++; }
   }
   if (cap) buf[n < cap ? n : cap - 1] = 0;
-  va_end(va);
-#undef PUT
   return (uint32_t)n;
 }
+#ifdef VERIF_NATIVE_REAL
+uint32_t __isoc99_fscanf(uint8_t* f, uint8_t* fmt, ...) {
+  va_list va;
+  va_start(va, fmt);
+  if (f != hfile_) { int r = vfscanf(f, (const char*)fmt, va); va_end(va); return (uint32_t)r; }
+  uint64_t* out = va_arg(va, uint64_t*);
+  va_end(va);
+  return fscanf_core(fmt, out);
+}
+uint32_t snprintf(uint8_t* buf, uint64_t cap, uint8_t* fmt, ...) {
+  va_list va;
+  va_start(va, fmt);
+  int ours = 1; uint32_t nconv = 0; /* ours: only literals and %zu/%lu, at most three */
+  for (uint32_t i = 0; fmt[i]; i++) if (fmt[i] == '%') { if (fmt[i + 1] == '%') { i++; continue; } if ((fmt[i + 1] == 'z' || fmt[i + 1] == 'l') && fmt[i + 2] == 'u') nconv++; else ours = 0; }
+  if (!ours || nconv > 3) { int r = vsnprintf((char*)buf, cap, (const char*)fmt, va); va_end(va); return (uint32_t)r; }
+  uint64_t a[3] = {0, 0, 0};
+  for (uint32_t k = 0; k < nconv; k++) a[k] = va_arg(va, uint64_t);
+  va_end(va);
+  return snprintf_core(buf, cap, fmt, a);
+}
+#else
+uint32_t X___isoc99_fscanf(uint8_t* f, uint8_t* fmt, uint64_t* out) {
+  FOREIGN(f, 0);
+  return fscanf_core(fmt, out);
+}
+uint32_t X_snprintf(uint8_t* buf, uint64_t cap, uint8_t* fmt, uint64_t a0, uint64_t a1, uint64_t a2) {
+  uint64_t a[3] = {a0, a1, a2};
+  return snprintf_core(buf, cap, fmt, a);
+}
+#endif
 /* strtoull (std::stoull in the P7 header parser): base 10, C-locale, exact incl. overflow -> ULLONG_MAX/ERANGE.  In the real
  * build the libc function itself is used (strtoul is the same function on LP64; the native driver also calls strtoull). */
 #ifdef VERIF_NATIVE_REAL
